@@ -37,12 +37,15 @@ def sortDepHolds (d : SortDep) : Bool :=
 
 /-! ### (3) order-dependent today — each one replayed on the real code (harness recipe named) -/
 
+
 def knownNondeterministic : List SiteKey := [
-  -- (empty) The eight sites that were order-dependent on the snapshot — inferDiscriminatorField,
-  -- Consolidate/LoadSchemas, FieldsSetDefault.processObject, Pipeline.interpolate,
-  -- ConverterGenerator.FromBuilder, ComposeBuilders, typescript formatValue,
-  -- referenceResolver.packageForToken — were repaired by `fix:` commits in /repo (see
-  -- known_findings.json "fixed"); their recipes still run, and a relapse is a violation.
+  -- empty today.  The eight sites found by this check on the pinned tree
+  --   inferDiscriminatorField, Schemas.Consolidate/LoadSchemas, FieldsSetDefault.processObject,
+  --   Pipeline.interpolate, ConverterGenerator.FromBuilder, ComposeBuilders,
+  --   typescript formatValue, referenceResolver.packageForToken
+  -- were repaired in /repo by `fix:` commits (keys sorted before ranging; see
+  -- known_findings.json "fixed").  They are now classified collectThenSort and proved; the
+  -- recipes that exposed them stay in the harness as regression recipes (`fixed-*`).
 ]
 
 /-! ### (4) reviewed sites -/
@@ -120,6 +123,31 @@ def reviewedCallees : List CalleeReview := [
     why := "pure apart from recursion into walkObject (itself a site); objects sorted by the caller" }
 ]
 
+/-! ### sort keys: `collectThenSort` by a field of the collected elements
+
+    `S_collect_then_sort` has the premise that the order is antisymmetric on the collected
+    elements.  The extractor accepts on its own: orders on the elements themselves, lexicographic
+    comparators that end on the element or cover all fields of its struct type, and a field
+    that the loop visibly fills with the range key.  Any other field comparison lands here. -/
+
+structure SortKeyReview where
+  file : String
+  func : String
+  key : String
+  why : String
+  deriving Repr
+
+def reviewedSortKeys : List SortKeyReview := [
+  { file := "internal/jsonschema/generator.go", func := "generator.walkObject", key := "fields by .Name",
+    why := "each collected field is `ast.NewStructField(name, …)` with `name` the range key of \
+            `schema.Properties`; NewStructField stores it in `.Name`, so `.Name` is unique" },
+  { file := "internal/openapi/generator.go", func := "generator.walkObject", key := "fields by .Name",
+    why := "same construction over `schema.Properties` of kin-openapi" }
+]
+
+def sortKeyOK (s : Site) (k : String) : Bool :=
+  reviewedSortKeys.any (fun r => r.file == s.file && r.func == s.func && r.key == k)
+
 def calleeOK (c : String) : Bool :=
   reviewedCallees.any (fun r => r.name == c && r.needsSort.all sortDepHolds)
 
@@ -130,7 +158,8 @@ def Site.known (s : Site) : Bool := knownNondeterministic.contains s.key
 def Site.reviewed (s : Site) : Bool :=
   reviewedSites.any (fun r => r.key == s.key && r.needsSort.all sortDepHolds)
 
-def Site.proved (s : Site) : Bool := s.admissible && s.callees.all calleeOK
+def Site.proved (s : Site) : Bool :=
+  s.admissible && s.callees.all calleeOK && s.sortKeys.all (sortKeyOK s)
 
 def Site.ok (s : Site) : Bool := s.outsideRun || s.proved || s.known || s.reviewed
 
